@@ -182,6 +182,115 @@ theorem crop_crop {α} (img : List α) (l1 u1 l2 u2 : Nat) :
   · have : ¬ l1 + l2 + k < min u1 (l1 + u2) := by omega
     simp [h1, this]
 
+/-! ## Slicing a slice (the composition that finding F10 broke in the code) -/
+
+/-- image of a result: `some img` for a view, `none` for the empty kymograph or an error -/
+def KRes.img? : KRes → Option Img
+  | .view w => some w.img
+  | _ => none
+
+theorem sliceTime_img? (v : KView) (hu : v.processed = false) (hd : v.rangesDefined = true) (a b : Int) :
+    (v.sliceTime a b).img? =
+      if searchsortedLeft (starts v) a < searchsortedLeft (starts v) b
+      then some (takeCols v.img (searchsortedLeft (starts v) a) (searchsortedLeft (starts v) b)) else none := by
+  have hle := searchsortedLeft_le_length (starts v) b
+  unfold KView.sliceTime
+  simp only [hu, Bool.false_eq_true, ↓reduceIte, KView.ranges, hd]
+  by_cases h1 : searchsortedLeft (starts v) a = (starts v).length
+  · rw [if_pos h1, if_neg (by omega)]; rfl
+  · rw [if_neg h1]
+    by_cases h2 : searchsortedLeft (starts v) a ≥ searchsortedLeft (starts v) b
+    · rw [if_pos h2, if_neg (by omega)]; rfl
+    · rw [if_neg h2, if_pos (by omega)]; rfl
+
+theorem searchsortedLeft_max (l : List Int) (hs : l.Pairwise (· ≤ ·)) (a c : Int) :
+    searchsortedLeft l (max a c) = max (searchsortedLeft l a) (searchsortedLeft l c) := by
+  apply searchsortedLeft_unique l hs
+  · have := searchsortedLeft_le_length l a; have := searchsortedLeft_le_length l c; omega
+  · intro k hk
+    have h1 := lt_searchsortedLeft_iff l hs a k hk
+    have h2 := lt_searchsortedLeft_iff l hs c k hk
+    omega
+
+theorem searchsortedLeft_min (l : List Int) (hs : l.Pairwise (· ≤ ·)) (b d : Int) :
+    searchsortedLeft l (min b d) = min (searchsortedLeft l b) (searchsortedLeft l d) := by
+  apply searchsortedLeft_unique l hs
+  · have := searchsortedLeft_le_length l b; omega
+  · intro k hk
+    have h1 := lt_searchsortedLeft_iff l hs b k hk
+    have h2 := lt_searchsortedLeft_iff l hs d k hk
+    omega
+
+theorem takeCols_takeCols {α} (img : List (List α)) (i j i' j' : Nat) :
+    takeCols (takeCols img i j) i' j' = takeCols img (i + i') (min j (i + j')) := by
+  simp only [takeCols, List.map_map]
+  apply List.map_congr_left
+  intro r _
+  exact crop_crop r i j i' j'
+
+/-- `kymo[a:b][c:d]` shows the image of `kymo[max(a,c) : min(b,d)]` — in particular a second window
+    that reaches beyond the first slice cannot bring back lines outside it; both are the empty
+    kymograph together. -/
+theorem slice_compose (v : KView) (n : Nat) (hr : Rect v.img n) (hne : v.img ≠ [])
+    (hu : v.processed = false) (hd : v.rangesDefined = true)
+    (hs : (starts v).Pairwise (· ≤ ·)) (a b c d : Int) (w : KView)
+    (hw : v.sliceTime a b = .view w) :
+    (w.sliceTime c d).img? = (v.sliceTime (max a c) (min b d)).img? := by
+  -- shape of the first slice
+  have hlen : (starts v).length = n := by
+    cases himg : v.img with
+    | nil => exact absurd himg hne
+    | cons r0 rs =>
+      have : r0.length = n := hr r0 (by rw [himg]; simp)
+      simp [starts, lineRanges, himg, numCols, this]
+  have hlej := searchsortedLeft_le_length (starts v) b
+  have h1 := slice_lines v hu hd hs a b
+  rw [hw] at h1
+  obtain ⟨himgw, hij⟩ := h1.2
+  have hwu : w.processed = false := by
+    unfold KView.sliceTime at hw
+    simp only [hu, Bool.false_eq_true, ↓reduceIte, KView.ranges, hd] at hw
+    split at hw
+    · cases hw
+    · split at hw
+      · cases hw
+      · injection hw with hw; rw [← hw]
+  have hwd : w.rangesDefined = true := by
+    unfold KView.sliceTime at hw
+    simp only [hu, Bool.false_eq_true, ↓reduceIte, KView.ranges, hd] at hw
+    split at hw
+    · cases hw
+    · split at hw
+      · cases hw
+      · injection hw with hw; rw [← hw]
+  have hwdelta : w.delta = v.delta := by
+    unfold KView.sliceTime at hw
+    simp only [hu, Bool.false_eq_true, ↓reduceIte, KView.ranges, hd] at hw
+    split at hw
+    · cases hw
+    · split at hw
+      · cases hw
+      · injection hw with hw; rw [← hw]
+  -- the slice's own line starts are the window of the parent's
+  have hstarts : starts w =
+      ((starts v).take (searchsortedLeft (starts v) b)).drop (searchsortedLeft (starts v) a) := by
+    have hjn : searchsortedLeft (starts v) b ≤ n := by omega
+    simp only [starts, himgw, hwdelta]
+    rw [slice_ranges_sublist v.img n hr v.delta _ _ hjn]
+    simp [List.map_drop, List.map_take]
+  rw [sliceTime_img? w hwu hwd, sliceTime_img? v hu hd, hstarts,
+    searchsortedLeft_take_drop _ hs _ _ (by omega) hlej,
+    searchsortedLeft_take_drop _ hs _ _ (by omega) hlej,
+    searchsortedLeft_max _ hs, searchsortedLeft_min _ hs, himgw, takeCols_takeCols]
+  generalize searchsortedLeft (starts v) a = i at *
+  generalize searchsortedLeft (starts v) b = j at *
+  generalize searchsortedLeft (starts v) c = sc at *
+  generalize searchsortedLeft (starts v) d = sd at *
+  by_cases hI : max i sc < min j sd
+  · rw [if_pos hI, if_pos (by omega)]
+    congr 2 <;> omega
+  · rw [if_neg hI, if_neg (by omega)]
+
 /-! ## Flip -/
 
 theorem values_zipWith_left (a b : List Pix) (h : a.length = b.length) :
